@@ -361,7 +361,7 @@ def result_blocks(body, vname):
     return [b for b, i, s in body.stmts() if s['k'] == 'assign' and s['place']['l'] == 0 and s['rv']['k'] == 'agg' and s['rv'].get('path') == 'core::result::Result' and s['rv']['vname'] == vname]
 
 
-@rule('G5i', props=['C11', 'C06', 'C01'], floor=2, configs=('all',))
+@rule('G5i', props=['C11', 'C06', 'C01', 'C16'], floor=2, configs=('all',))
 def g5i_identifier_padding(prog):
     """archetype::Identifier deserialisation: after reading (LEN+7)/8 bytes, the visitor returns Err exactly
     when a padding bit of the last byte is set, i.e. LEN % 8 != 0 and (last_byte >> (LEN % 8)) != 0,
